@@ -87,8 +87,8 @@ theorem group_by_spec (fields : List Bytes) (xs : List Rec) :
 /-- group-like: the same with the list of field names as the key. -/
 theorem group_like_spec (xs : List Rec) :
     Verbs.groupLike.run xs =
-      (dkeys (fun r => some (Split.join [44] r.keys)) xs).flatMap
-        (grp (fun r => some (Split.join [44] r.keys)) xs) := groupLike_eq xs
+      (dkeys (fun r => some (joinKey r.keys)) xs).flatMap
+        (grp (fun r => some (joinKey r.keys)) xs) := groupLike_eq xs
 
 /-- Selectors only select: every record output by head / tail -n +k / decimate (any count, any
 group-by list) is an input record, unchanged and in input order (a sublist). -/
@@ -121,6 +121,41 @@ theorem nothing_spec (xs : List Rec) : Verbs.nothing.run xs = [] := by
 /-! Non-vacuity -/
 example : (headKeyed 1 [str "a"]).run [[(str "a", str "x")], [(str "b", str "y")], [(str "a", str "x"), (str "c", str "1")], [(str "a", str "z")]]
     = [[(str "a", str "x")], [(str "a", str "z")]] := by decide
+
+/-- Groups are formed by the EXACT texts of the group-by fields: the grouping key (escaped
+comma-join, `GetSelectedValuesJoined`) of two value lists of the same length is the same only if
+the lists are equal — whatever bytes, commas and backslashes included, the values contain.
+(Before the fix 94fce798a the plain comma-join mapped ["x,y","z"] and ["x","y,z"] to one key.) -/
+theorem joinKey_injective (a b : List Bytes) (hl : a.length = b.length) (h : joinKey a = joinKey b) : a = b := by
+  cases a with
+  | nil => cases b with
+    | nil => rfl
+    | cons _ _ => simp at hl
+  | cons x xs => cases b with
+    | nil => simp at hl
+    | cons y ys =>
+      have := congrArg (fun s => decKey s []) h
+      simpa [dec_joinKey] using this
+
+/-- Hence two records fall in the same group exactly when they agree on every group-by field. -/
+theorem same_group_iff_same_values (fields : List Bytes) (r s : Rec) (k : Bytes)
+    (hr : groupKey fields r = some k) (hs : groupKey fields s = some k) :
+    fields.mapM (get r) = fields.mapM (get s) := by
+  unfold groupKey at hr hs
+  by_cases he : fields.isEmpty = true
+  · have : fields = [] := by simpa using he
+    subst this; rfl
+  · simp only [he, Bool.false_eq_true, if_false] at hr hs
+    cases hvr : fields.mapM (get r) with
+    | none => simp [hvr] at hr
+    | some a =>
+      cases hvs : fields.mapM (get s) with
+      | none => simp [hvs] at hs
+      | some b =>
+        simp only [hvr, hvs, Option.map_some, Option.some.injEq] at hr hs
+        have hla : a.length = fields.length := mapM_length _ _ _ hvr
+        have hlb : b.length = fields.length := mapM_length _ _ _ hvs
+        rw [joinKey_injective a b (by omega) (by rw [hr, hs])]
 
 end Props.C11
 end Miller
